@@ -27,7 +27,8 @@ From Coq Require Import NArith ZArith List Bool Arith Lia.
 From Pq Require Import Base.Bytes Base.ListX Codec.Hybrid Thrift.Compact Thrift.Idl Thrift.IdlPinned Format.Phys Format.Meta Format.Page
   Format.ChunkLayout Format.File Format.Enc
   Proofs.ChunkLayoutProofs Proofs.HybridProofs Proofs.FormatCodecProofs Proofs.FormatPageProofs Proofs.FormatChunkProofs
-  Proofs.FormatMetaProofs Proofs.FormatIdlProofs Proofs.FormatFileProofs Proofs.FormatLayoutProofs Proofs.FormatLayoutProofs2.
+  Proofs.FormatMetaProofs Proofs.FormatIdlProofs Proofs.FormatFileProofs Proofs.FormatLayoutProofs Proofs.FormatLayoutProofs2
+  Impl.WPagesFmt Proofs.WPagesFmtProofs.
 Import ListNotations.
 Open Scope list_scope.
 
@@ -213,6 +214,28 @@ Theorem C02_fp_write_chunk_valid : forall start encs (ps : list page) (m : cmd) 
   valid_chunk rg (CHere {| co_meta := m; co_pages := ps; co_cells := cells; co_nulls := nulls |}) = ROk tt.
 Proof. exact fp_write_chunk_valid. Qed.
 Print Assumptions C02_fp_write_chunk_valid.
+
+(* C02_fp_write_dec at page level: the layout write_column picks for a PLAIN column page (Impl/WPagesFmt.v:
+   one RLE run of definition levels when the page has no NULL, else one bit-packed run over the mask padded
+   with 8 - n mod 8 zeros; PLAIN values; 8 zero bytes after a v1 page) is a well-formed layout of the
+   specification and denotes exactly the page's cells - so (C02_spec_page_roundtrip) every specification
+   reader decodes the page to the input cells; for any number of rows, any NULL pattern, v1 and v2.
+   The model's payload bytes are compared with every real PLAIN page on each run (evidence:
+   writer_model_pages_not_byte_equal; information, not an obligation - DESIGN 4.2). *)
+Theorem C02_fp_write_plain_page_dec_partial : forall v2 optional t tlen cells,
+  cells_fit optional cells ->
+  page_cells {| cd_type := t; cd_tlen := tlen; cd_maxdef := if optional then 1 else 0 |} None (fp_plain_page v2 optional cells)
+  = Some cells.
+Proof. exact fp_plain_page_cells. Qed.
+Print Assumptions C02_fp_write_plain_page_dec_partial.
+
+Theorem C02_fp_write_plain_page_wf_partial : forall v2 optional t tlen cells,
+  cells_fit optional cells ->
+  Forall (fun v => value_ok t tlen v = true) (vals_of cells) ->
+  lenN (hyb_enc 1 (fp_def_runs cells)) < 2 ^ 32 -> cells <> [] ->
+  page_wf {| cd_type := t; cd_tlen := tlen; cd_maxdef := if optional then 1 else 0 |} (fp_plain_page v2 optional cells).
+Proof. exact fp_plain_page_wf. Qed.
+Print Assumptions C02_fp_write_plain_page_wf_partial.
 
 (* ---------------- non-vacuity -------------------------------------------------------------------- *)
 Example C02_nonvacuous :
